@@ -1357,37 +1357,35 @@ func (r *Reader) processParagraph(p paragraphXML) parsedParagraph {
 
 // extractRunText extracts text from a run element.
 func (r *Reader) extractRunText(run runXML) string {
+	return runText(run)
+}
+
+// runText returns the text of a run with its inline content in document order.
+func runText(run runXML) string {
 	var parts []string
 
-	for _, t := range run.Text {
-		parts = append(parts, t.Value)
-	}
-
-	// Handle symbol characters (emoji and special symbols)
-	for _, sym := range run.Symbols {
-		if char := parseSymbolChar(sym.Char); char != "" {
-			parts = append(parts, char)
-		}
-	}
-
-	// Handle AlternateContent fallbacks (used for emoji in newer Word versions)
-	for _, ac := range run.AlternateContent {
-		for _, t := range ac.Fallback.Text {
-			parts = append(parts, t.Value)
-		}
-	}
-
-	// Handle tab characters
-	for range run.Tabs {
-		parts = append(parts, "\t")
-	}
-
-	// Handle breaks
-	for _, br := range run.Breaks {
-		if br.Type == "page" {
-			parts = append(parts, "\n\n")
-		} else {
-			parts = append(parts, "\n")
+	for _, item := range run.Items {
+		switch {
+		case item.Text != nil:
+			parts = append(parts, item.Text.Value)
+		case item.Symbol != nil:
+			// Symbol characters (emoji and special symbols)
+			if char := parseSymbolChar(item.Symbol.Char); char != "" {
+				parts = append(parts, char)
+			}
+		case item.AlternateContent != nil:
+			// AlternateContent fallbacks (used for emoji in newer Word versions)
+			for _, t := range item.AlternateContent.Fallback.Text {
+				parts = append(parts, t.Value)
+			}
+		case item.Tab != nil:
+			parts = append(parts, "\t")
+		case item.Break != nil:
+			if item.Break.Type == "page" {
+				parts = append(parts, "\n\n")
+			} else {
+				parts = append(parts, "\n")
+			}
 		}
 	}
 
